@@ -24,6 +24,7 @@ func init() { register("C18", runC18) }
 //	adm mp=<MaxPeers> ip=<MaxPeersPerIP> D=<ban duration, units>;<event>;<event>;...
 //	cm t=<target> mf=<maxFailedAttempts>;<event>;<event>;...
 //	wr t=<target> mf=<maxFailedAttempts>;<event>;...   (real server wired to the real connmgr)
+//	wa t=<target> mf=<maxFailedAttempts>;<book>;<event>;...   (the same with the real address source)
 //
 // see c18_adm.go / c18_cm.go for the event syntax and the observables.
 func runC18(c *Ctx) error {
@@ -74,7 +75,10 @@ func runC18(c *Ctx) error {
 		return err
 	}
 	defer c18StackClose()
-	return c18GenWr(c, st)
+	if err := c18GenWr(c, st); err != nil {
+		return err
+	}
+	return c18GenWa(c, st)
 }
 
 // the real service stack (SQLite + services) the wired cases' sync manager works on; opened once
@@ -117,14 +121,19 @@ func c18One(c *Ctx, input, class string) error {
 		obs := c18RunCm(head, toks[1:])
 		c.Case(input, obs)
 		c.Count("cm:" + class)
-	case "wr":
+	case "wr", "wa":
 		st, err := c18Stack(c)
 		if err != nil {
 			return err
 		}
-		obs := c18RunWr(head, toks[1:], st)
+		var obs string
+		if head[0] == "wr" {
+			obs = c18RunWr(head, toks[1:], st)
+		} else {
+			obs = c18RunWa(head, toks[1:], st)
+		}
 		c.Case(input, obs)
-		c.Count("wr:" + class)
+		c.Count(head[0] + ":" + class)
 	default:
 		c.Case(input, "BAD-INPUT")
 	}
